@@ -52,6 +52,8 @@ Scn(m) ==
       cmds |-> [j \in 1..nc |-> Str(cmds[j])], outs |-> [j \in 1..nc |-> Str(outs[j])],
       pre |-> \A j \in 1..nc : PreOut(outs[j], depth, prompt) /\ PreCmd(cmds[j]),
       expect |-> [j \in 1..nc |-> Str(Expect(outs[j], prompt, strip))],
+      \* an empty command (a bare return): nothing is echoed, the device answers with its prompt alone
+      expectempty |-> Str(Post(<<"N", "N">> \o prompt, strip)),
       early |-> EarlyEcho(cmds[1], Banner \o prompt \o <<"N", "N">> \o prompt,
                           IF wrap THEN WrapEcho(cmds[1], 0) ELSE cmds[1], depth, exact),
       devlog |-> [j \in 1..nc |-> Str(cmds[j])]]
